@@ -477,7 +477,7 @@ FamFns(fam) ==
     [] fam = "range"   -> <<"parse_range_header", "parse_content_range_header", "parse_if_range_header", "parse_age">>
     [] fam = "date"    -> <<"parse_date", "parse_if_range_header">>
     [] fam = "body"    -> <<"parse_options_header">>
-    [] fam = "ext"     -> <<"parse_options_header", "parse_dict_header", "parse_accept_header", "parse_accept_header[MIMEAccept]">>
+    [] fam = "ext"     -> <<"parse_options_header", "parse_dict_header", "parse_accept_header">>
     [] fam = "accept"  -> <<"parse_accept_header", "parse_accept_header[MIMEAccept]", "parse_accept_header[LanguageAccept]",
                             "parse_accept_header[CharsetAccept]">>
 FamSlots(fam) ==
